@@ -7,5 +7,7 @@ if [ -n "$(git status --porcelain --untracked-files=no)" ]; then echo "repo dirt
 git apply "$P" || { echo "patch does not apply"; exit 2; }
 /verif/bin/check $ID $T > /tmp/try_seed.out 2>&1; rc=$?
 git checkout -- . 
+# rebuild from the clean tree so that no later direct use of the binary sees the seeded build
+(cd /verif/mc && cargo build --offline --profile mc >/dev/null 2>&1)
 grep -E "^VIOLATION|^  (signature|detail)|MACHINERY|^C[0-9]+ " /tmp/try_seed.out | head -${LINES_MAX:-12}
 echo "exit=$rc"
